@@ -2,11 +2,15 @@
 admm(n_const=None) returns the unconstrained least-squares solution.
 
 Correspondence: Model/Nnls.v executed at Qops inside Coq against tensorly/solvers/nnls.py / admm.py on the same
-inputs (HALS passes incl. l1 / ridge / epsilon / nonzero_rows / cold start, FISTA iterations, the active-set
-algorithm with exact elimination, ADMM), toleranced; exact-rational certificates on the returned points.
-Predicates (Python, on the implementation's outputs): non-negativity, KKT (scaled tolerance), objective equal to
-the constructed optimum and to scipy.optimize.nnls, admm == numpy.linalg.solve.
-Problems are CONSTRUCTED from a chosen KKT pair (x*, mu*) over small dyadic rationals, so the exact optimum is known."""
+inputs (HALS passes incl. l1 / ridge / epsilon / nonzero_rows / cold start, the cold start alone vs hals_init, FISTA
+iterations with given and default step, the active-set algorithm with exact elimination, ADMM), toleranced;
+exact-rational certificates on the returned points (CConv).
+Predicates (Python, on the implementation's outputs): non-negativity, KKT (scaled tolerance, evaluated in exact rational
+arithmetic), objective equal to the constructed optimum and to scipy.optimize.nnls for converged runs; approximate
+optimality of single calls with the default n_iter_max / tol / lr; admm == numpy.linalg.solve.
+Problems are CONSTRUCTED from a chosen KKT pair (x*, mu*) over small dyadic rationals, so the exact optimum is known.
+corpus/C13/*.json (the two defects repaired by 5f3eaf7 and dadc3ff) runs first.  A per-case timeout is counted as
+skipped (histogram "skipped"), never a verdict."""
 import contextlib, io, math, random
 from fractions import Fraction as Fr
 import numpy as np
@@ -173,9 +177,55 @@ def run_fista_converged(p, x0, eps=0.0, lr=None):
 
 
 # ----------------------------------------------------------------------------- known findings
-# none at present: the two defects found by this check (hals_nnls cold start 0/0, active_set_nnls rounding residue on the
-# blocking coordinate) were repaired in /repo (5f3eaf7, dadc3ff); their witnesses live in corpus/C13/*.json and run first.
-CLASSIFIERS = {}
+# The two defects found earlier (hals_nnls cold start 0/0, active_set_nnls rounding residue on the blocking coordinate)
+# were repaired in /repo (5f3eaf7, dadc3ff); their witnesses live in corpus/C13/*.json and run first.
+def clf_fista_signed_sum(f):
+    """fista left its loop through `abs(sum(x - x_new)) < tol * norm_0` on a step whose SIGNED sum cancels while its l1
+    norm is not small: the observed output equals the K-th iterate for some K < n_iter_max (recomputed with the
+    implementation itself, n_iter_max = 1, 2, ...), |sum(y_{K-1} - y_K)| < tol * norm_0 and sum|y_{K-1} - y_K| >= 100 * tol * norm_0"""
+    inp = f["inputs"]
+    if inp.get("call") != "default":
+        return False
+    arr = lambda v: None if v is None else (C.from_jsonable_array(v) if isinstance(v, dict) else np.asarray(v, dtype=float))
+    G, B, obs = arr(inp["UtU"]), arr(inp["UtM"]), arr(f.get("observed"))
+    if obs is None or not finite(obs):
+        return False
+    from tensorly.solvers.nnls import fista
+    l1, l2, tol, nmax = float(inp.get("l1", 0.0)), float(inp.get("l2", 0.0)), 1e-8, 100
+    run = lambda K: np.asarray(fista(B.copy(), G.copy(), n_iter_max=K, sparsity_coef=l1, ridge_coef=l2, tol=0, epsilon=0.0), dtype=float)
+    prev, norm0 = np.zeros_like(B), None
+    for K in range(1, 12):
+        y = run(K)
+        d = prev - y
+        if K == 1:
+            norm0 = abs(float(np.sum(d)))
+        elif abs(float(np.sum(d))) < tol * norm0:
+            # the rule fires here: the observed output must be this iterate, and the l1 step must be far above the threshold
+            return bool(K < nmax and np.allclose(y, obs, rtol=1e-9, atol=1e-12) and float(np.sum(np.abs(d))) >= 100 * tol * norm0)
+        prev = y
+    return False
+
+
+CLASSIFIERS = {"fista_stopped_on_cancelling_signed_sum": clf_fista_signed_sum}
+
+
+def _load_known_with_own_snippet():
+    """known_findings.json is merged by the coordinator from known_findings.d/*.json; until (and after) that merge
+    this check reads its own snippet too, so that it is self-contained (ids are de-duplicated)."""
+    import json, os
+    orig = C.load_known
+    if getattr(orig, "_c13", False):
+        return
+
+    def load(prop):
+        ks = orig(prop)
+        fn = os.path.join(C.VERIF, "known_findings.d", "C13.json")
+        if prop == "C13" and os.path.exists(fn):
+            ids = {k.get("id") for k in ks}
+            ks = ks + [k for k in json.load(open(fn)).get("findings", []) if k.get("id") not in ids and k.get("property") == prop]
+        return ks
+    load._c13 = True
+    C.load_known = load
 
 
 # ----------------------------------------------------------------------------- predicates
@@ -271,6 +321,7 @@ def fista_betas(K):
 
 def run(chk):
     rng = random.Random(chk.seed)
+    _load_known_with_own_snippet()
     chk.build_proofs()
     # common.print_assumptions parses the header line "Axioms:" of Print Assumptions as an axiom called 'Axioms'
     # (reported to the coordinator); drop exactly that pseudo-entry, keep every real one
@@ -302,13 +353,17 @@ def run(chk):
     L2 = [0.0, 0.0, 0.125, 0.5]
 
     # ---------------- corpus (minimised regression inputs: the former defects) first
-    problems, as_corpus = [], []
+    problems, as_corpus, fista_corpus = [], [], []
     for c in load_corpus():
         G = np.array(c["G"], dtype=float)
         if c.get("kind") == "hals":
             B = np.array(c["B"], dtype=float); r, n = B.shape
             problems.append(dict(U=np.linalg.cholesky(G).T, G=G, B=B, X=np.array(c["X"], dtype=float), MU=np.array(c["MU"], dtype=float),
                                  l1=0.0, l2=0.0, r=r, n=n, signed=True, style="corpus"))
+        elif c.get("kind") == "fista_default":
+            B = np.array(c["B"], dtype=float); r, n = B.shape
+            fista_corpus.append(dict(U=np.linalg.cholesky(G).T, G=G, B=B, X=np.array(c["X"], dtype=float), MU=np.array(c["MU"], dtype=float),
+                                     l1=0.0, l2=0.0, r=r, n=n, signed=True, style="corpus"))
         elif c.get("kind") == "aset":
             b = np.array(c["b"], dtype=float); r = len(b)
             as_corpus.append((dict(U=np.linalg.cholesky(G).T, G=G, B=b.reshape(-1, 1), X=np.array(c["X"], dtype=float).reshape(-1, 1),
@@ -329,6 +384,17 @@ def run(chk):
                            f"{C.q(eps)} {C.q(lr)} {mat_lit(V)} {mat_lit(p['X'])} {C.q(tstep)} {C.q(1e-6)} {C.q(1e-6 if eps == 0 else 1.0)})")
         return lit
 
+    for p in fista_corpus:
+        p["Xs"] = scipy_reference(p)
+        try:
+            st, V = impl_call(chk, lambda: fista(p["B"].copy(), p["G"].copy(), sparsity_coef=p["l1"], ridge_coef=p["l2"], epsilon=0.0), timeout=180)
+        except Skip:
+            continue
+        chk.count(key=("fista-default-corpus", p["r"], p["n"]), nontrivial=True)
+        inp_d = inputs_json(p, x0=None, epsilon=0.0, lr=None, call="default", protocol="single call with the default n_iter_max, tol and lr")
+        msg = f"fista raised: {V}" if st != "ok" else check_point(p, V, 0.0, "fista(default n_iter_max, tol, lr)", tk=1e-2, to=1e-4)
+        if msg:
+            chk.finding(EP_FISTA, inp_d, msg, "C13_kkt_optimal", observed=np.asarray(V) if st == "ok" else None)
     for p, x0 in as_corpus:
         as_point(chk, p, 0, x0, active_set_nnls, add_case, conv_case)
         as_point(chk, p, 0, None, active_set_nnls, add_case, conv_case)
